@@ -125,7 +125,7 @@ impl Prop for C20 {
         true
     }
     fn random_cases(tier: Tier) -> u64 {
-        tier.pick(3_000, 60_000)
+        tier.pick(3_000, 1_500_000)
     }
     fn strategy(_tier: Tier) -> BoxedStrategy<Case> {
         let tex = (proptest::collection::vec(name_char(), 0..10).prop_map(|v| v.into_iter().collect::<String>()), 0u8..9, any::<u8>(), any::<u8>(), any::<u64>()).prop_map(|(name, fmt, w, h, seed)| TexSpec { name, fmt, w, h, seed });
@@ -143,7 +143,7 @@ impl Prop for C20 {
         let mut idx = 0u64;
         let limit = tier.pick(4096u32, 65536);
         for container in [Container::Ctpk, Container::Bch, Container::Cgfx, Container::Tpl] {
-            for placement in 0..tier.pick(12u64, 60) {
+            for placement in 0..tier.pick(12u64, 300) {
                 for ntex in [0usize, 1, 2, 3] {
                     let mine = idx % nshards == shard;
                     idx += 1;
@@ -163,7 +163,7 @@ impl Prop for C20 {
         }
     }
     fn exhaustive_note(tier: Tier) -> Option<String> {
-        Some(format!("4 containers x {} placements x 0..=3 textures: the full file, a wrong magic, and EVERY strict prefix of files up to {} bytes (larger: all cuts in the first 1 KiB, payload boundaries +-1, every 7th)", tier.pick(12, 60), tier.pick(4096, 65536)))
+        Some(format!("4 containers x {} placements x 0..=3 textures: the full file, a wrong magic, and EVERY strict prefix of files up to {} bytes (larger: all cuts in the first 1 KiB, payload boundaries +-1, every 7th)", tier.pick(12, 300), tier.pick(4096, 65536)))
     }
 
     fn run(case: &Case, cx: &mut Cx) {
